@@ -555,6 +555,8 @@ def _replace_stmt(stmts, pred, new):
             st2 = ast.parse(ast.unparse(st)).body[0]
             st2.body, a = _replace_stmt(st.body, pred, new)
             st2.orelse, b = _replace_stmt(st.orelse, pred, new)
+            if not st2.body:
+                raise Unsupported('an if-branch holds nothing but the statement that was to be dropped: ' + _norm(st.test))
             n += a + b
             out.append(st2)
         else:
